@@ -69,24 +69,25 @@ const posaChainID = 79
 const posaPool = 16
 
 type posaNode struct {
-	id      string
-	parent  string
-	hash    ecommon.Hash
-	phash   ecommon.Hash
-	num     uint64
-	cb      ecommon.Address
-	sealBy  int // key index of a genuine seal, -1 otherwise
-	diff    uint64
-	extra   []byte
-	mixBad  bool
-	uncBad  bool
-	stored  bool
-	refTD   uint64
-	pv1     []ecommon.Address // genesis only
-	pv1h    uint64
-	isGen   bool
-	time    uint64
-	gl      uint64
+	id     string
+	parent string
+	hash   ecommon.Hash
+	phash  ecommon.Hash
+	num    uint64
+	cb     ecommon.Address
+	sealBy int  // key index of a genuine seal, -1 otherwise
+	sealW  bool // sealed by a pool key over another hash (recovers to an address outside the pool)
+	diff   uint64
+	extra  []byte
+	mixBad bool
+	uncBad bool
+	stored bool
+	refTD  uint64
+	pv1    []ecommon.Address // genesis only
+	pv1h   uint64
+	isGen  bool
+	time   uint64
+	gl     uint64
 }
 
 type posaRouter struct {
